@@ -100,3 +100,31 @@ Print Assumptions C09_full_run.
 
 Example C09_witness : accumulate ROps 0 0 = 0 /\ (0 < 1)%nat.
 Proof. split; [rewrite accumulate_R, Ropp_0, exp_0; ring | lia]. Qed.
+
+(* the assembled cumulative pass with electronic_integration = "linear-rk4" (Model/Traj.step_cum_rk4, tied to real runs by
+   Run/RTraj.chkCr): the decision is the same cum_step on rates built from the rk4-propagated rho; an accepted hop
+   conserves energy exactly and resets the accumulation; rho stays Hermitian with its trace whatever the decision *)
+Theorem C09_full_step_rk4_accepted_hop :
+  forall n m dt maxdt start (e0 e1 : elec (T:=R)) eigs vecs (s s' : tstate (T:=R)) c c' hp t,
+  step_cum_rk4 ROps n m dt maxdt start e0 e1 eigs vecs s c = (s', c', hp, Some (t, true)) ->
+  let f0 := nth (pact s) (eforce e0) [] in let f1 := nth (pact s) (eforce e1) [] in
+  let v1 := advance_velocity ROps m (pv s) f0 f1 dt in
+  Forall (fun mi => 0 < mi) m -> length v1 = length m -> length (tget (etau e1) (pact s) t) = length m ->
+  0 < vdot ROps (tget (etau e1) (pact s) t) (tget (etau e1) (pact s) t) ->
+  pact s' = t /\ kinetic ROps m (pv s') + vget ROps (diagE ROps n e1) t
+                 = kinetic ROps m v1 + vget ROps (diagE ROps n e1) (pact s)
+  /\ acc c' = 0.
+Proof. exact step_cum_rk4_hop_energy. Qed.
+Print Assumptions C09_full_step_rk4_accepted_hop.
+
+Theorem C09_full_step_rk4_shape :
+  forall n m dt maxdt start (e0 e1 : elec (T:=R)) eigs vecs (s s' : tstate (T:=R)) c c' hp att,
+  step_cum_rk4 ROps n m dt maxdt start e0 e1 eigs vecs s c = (s', c', hp, att) ->
+  let f0 := nth (pact s) (eforce e0) [] in let f1 := nth (pact s) (eforce e1) [] in
+  let v1 := advance_velocity ROps m (pv s) f0 f1 dt in
+  ptime s' = ptime s + dt
+  /\ prho s' = rk4_step ROps n (eH e0) (eH e1) (etau e0) (etau e1) v1 (pv s) eigs vecs dt maxdt start (prho s)
+  /\ px s' = advance_position ROps m (px s) (pv s) f0 dt
+  /\ pact s' = match att with Some (t, true) => t | _ => pact s end.
+Proof. exact step_cum_rk4_shape. Qed.
+Print Assumptions C09_full_step_rk4_shape.
